@@ -195,6 +195,10 @@ func scriptedHook(cfg scfg) func(name string, req map[string]interface{}) vs.Hoo
 					}
 					o["spec"] = sp
 				}
+				if mode == "child-status" {
+					// a hook that copies whole objects, status included
+					o["status"] = vs.M{"ready": true}
+				}
 				if mode == "sts" && i > 0 && i > ready {
 					break
 				}
@@ -227,7 +231,9 @@ func scriptedHook(cfg scfg) func(name string, req map[string]interface{}) vs.Hoo
 			resp["status"] = vs.M{"replicas": int64(observed), "ready": int64(ready)}
 		}
 		if finalizing {
-			resp["finalized"] = observed == 0 || mode == "finalize-now"
+			// "finalize-latest": the answer depends on the (revisioned) spec, so parent revisions can disagree
+			img := objStr(parent, "spec", "image")
+			resp["finalized"] = observed == 0 || mode == "finalize-now" || (mode == "finalize-latest" && img != "v0" && img != "v00")
 		}
 		if mode == "resync" {
 			resp["resyncAfterSeconds"] = int64(30)
@@ -282,7 +288,7 @@ func buildScenario(r *vs.Rand, cfg scfg) *scenario {
 	if r.Chance(20) {
 		spec["extra"] = vs.M{"a": int64(r.Intn(3))}
 	}
-	switch r.Intn(14) {
+	switch r.Intn(18) {
 	case 0:
 		spec["hookMode"] = "null-status"
 	case 1:
@@ -296,6 +302,14 @@ func buildScenario(r *vs.Rand, cfg scfg) *scenario {
 		spec["childLabels"] = vs.M{"app": "other"}
 	case 5:
 		spec["hookMode"] = "own-condition"
+	case 6:
+		spec["hookMode"] = "finalize-now"
+	case 7:
+		spec["hookMode"] = "finalize-keeps"
+	case 8:
+		spec["hookMode"] = "finalize-latest"
+	case 9:
+		spec["hookMode"] = "child-status"
 	}
 	if cfg.GenerateSelector {
 		// with selector generation the children need no matching labels of their own
